@@ -100,6 +100,9 @@ def run_hc(case, drv):
     except Exception as e:
         return fail(f"estimate raised {type(e).__name__}: {e}", **tags)
     got = sorted([names.index(u), names.index(v)] for u, v in res.edges())
+    # the caller's start graph is an input, not the working copy
+    if sorted([names.index(u), names.index(v)] for u, v in start.edges()) != sorted(case["start"]) or res is start:
+        return fail("estimate modified (or returned) the caller's start_dag", **tags)
     # contract
     if set(res.nodes()) != set(names):
         return fail(f"result has nodes {sorted(map(str, res.nodes()))}", **tags)
